@@ -175,7 +175,8 @@ for _p, _rules in (("C11", ["CAS-EPOCH-BLIND"]), ("C20", ["EBR-REACTIVATE", "REC
                    ("C18", ["REC-NO-UNBOUNDED", "EBR-DEFAULT-COLLECTOR"]), ("C19", ["BIT-TAGGED"]),
                    ("C01", ["CW-COUNT-OVERFLOW"]), ("C03", ["CW-COUNT-OVERFLOW"]),
                    ("C02", ["CW-UPGRADE-TRACE", "OWN-PRIMITIVES", "LINK-TAG", "CW-WINDOW-FRESH", "CW-CASCADE-FOREIGN-GUARD"]), ("C05", ["CW-UPGRADE-TRACE", "CW-COUNT-OVERFLOW"]),
-                   ("C12", ["OWN-PRIMITIVES", "LINK-TAG", "CW-WINDOW-FRESH"]),
+                   # (the stamps the comparison classifies: what is merged, and that every release leaves one)
+                   ("C12", ["OWN-PRIMITIVES", "LINK-TAG", "CW-WINDOW-FRESH", "CW-STAMP-ON-DEC", "CW-CASCADE-MERGE"]),
                    ("C14", ["EBR-COLLECT-OUTERMOST", "EBR-REACTIVATE", "EBR-GUARD-COUNT"])):
     registry.PROPS[_p]["rules"] += [x for x in _rules if x not in registry.PROPS[_p]["rules"]]
 # `Snapshot::counted` turns a protected Snapshot into a counted owner: "an Rc however obtained (counted, ..) points to a
@@ -194,7 +195,9 @@ for _p, _rules in (("C01", ["CW-ALLOC-INIT", "CW-DEFER-WRAPPER"]), ("C02", ["EBR
                    ("C13", ["WRAP-ATOMICS", "EBR-DEFAULT-COLLECTOR", "CW-DEFER-WRAPPER"]),
                    ("C14", ["WRAP-ATOMICS", "EBR-DEFAULT-COLLECTOR"]), ("C17", ["WRAP-ATOMICS"]), ("C18", ["WRAP-ATOMICS"]),
                    ("C20", ["EBR-DEFAULT-COLLECTOR"]),
-                   ("C04", ["EBR-PIN-PROGRESS", "DBG-PURE"]), ("C15", ["EBR-PIN-PROGRESS", "DBG-PURE"]),
+                   # (a thread that keeps one guard and does its rounds as flush(); reactivate() collects only because
+                   #  reactivate goes through unpin: the repin sequence is part of "eventually")
+                   ("C04", ["EBR-PIN-PROGRESS", "DBG-PURE"]), ("C15", ["EBR-PIN-PROGRESS", "DBG-PURE", "EBR-REACTIVATE"]),
                    ("C05", ["DBG-PURE"]), ("C13", ["DBG-PURE"]), ("C16", ["DBG-PURE"]), ("C01", ["DBG-PURE"]),
                    # "user tags are preserved exactly and truncated to the alignment bits" (C08/C09) is the bit-level round trip;
                    # "the reference upgrade returns obeys C02" (C05) includes the signature that ties it to the guard
